@@ -165,6 +165,58 @@ func checkC05(c *Ctx) {
 			c.undecided("C05-CAP", "*", "capture sites", token.NoPos, fmt.Sprintf("only %d functions capture the control state (5 confirmed by reading)", n))
 		}
 	}
+	// a routine that captures the control state and then runs the VM (Run) is a nested evaluation: it has to put the
+	// state back on success too, or it leaves the program counter where Run stopped (-1), and on an idle interpreter
+	// every later evaluation ends at once with nil
+	if capF != nil && resF != nil {
+		runF := c.fn("Zlisp.Run")
+		nRun := 0
+		for _, f := range c.zygoFuncs() {
+			if runF == nil || len(callsOf(f, capF)) == 0 {
+				continue
+			}
+			for _, rs := range callsOf(f, runF) {
+				nRun++
+				restoreBlocks := map[*ssa.BasicBlock]bool{}
+				for _, r := range callsOf(f, resF) {
+					restoreBlocks[r.Block()] = true
+				}
+				rb := rs.Block()
+				reach := reachableAvoiding(rb, func(b *ssa.BasicBlock) bool { return restoreBlocks[b] && b != rb })
+				okAll := true
+				var at token.Pos
+				for b := range reach {
+					if restoreBlocks[b] && b != rb {
+						continue
+					}
+					for _, in := range b.Instrs {
+						r, isRet := in.(*ssa.Return)
+						if !isRet {
+							continue
+						}
+						// in the Run block itself a restore after the call counts
+						restoredHere := false
+						if b == rb {
+							for _, x := range b.Instrs {
+								if ci, ok := x.(ssa.CallInstruction); ok && ci.Common().StaticCallee() == resF && instrIndex(x) > instrIndex(rs.(ssa.Instruction)) {
+									restoredHere = true
+								}
+							}
+						}
+						if !restoredHere {
+							okAll, at = false, r.Pos()
+						}
+					}
+				}
+				c.check(okAll, "C05-CAP", fnName(f), "state restored after the nested run on every return", orPos(at, rs.Pos()),
+					"every return after the nested Run is preceded by restoreControlState, on the success path too",
+					"a routine that captured the control state and ran the VM returns on a path without restoring it: the caller finds the program counter where the nested run stopped; after env.Apply on an idle interpreter every later EvalString returns nil without running anything")
+			}
+		}
+		if nRun < 3 {
+			c.undecided("C05-CAP", "*", "nested runs", token.NoPos, fmt.Sprintf("only %d nested Run calls inside a capture bracket found (Apply, EvalCallExpression, Force confirmed by reading)", nRun))
+		}
+	}
 	// a Go builtin may call back into the VM; the place that calls it (through SexpFunction.userfun) is a re-entry
 	// point and needs the bracket: the call comes after a capture in the same function (or its enclosing function)
 	if capF != nil {
